@@ -289,6 +289,48 @@ inline void Dedicated(const Table& tab, Result& res, std::unordered_set<u64>& di
             res.AddViolation("c12:dma-window:assert", a.expression, Fmt("c12 dmawin %d", path));
         }
     }
+    // (C2) a DMA start that goes through an AHBM channel: whatever that channel's configuration holds (all four burst codes, the unit
+    // sizes, both directions), the start changes no register except through the documented coupling (completion -> ICU pending)
+    for (int path = 0; path < 2; ++path) {
+        if (!mine())
+            continue;
+        for (u16 n = 0; n < 3; ++n)
+            for (u16 burst = 0; burst < 4; ++burst)
+                for (u16 unit = 0; unit < 3; ++unit)
+                    for (int src_ext = 0; src_ext < 2; ++src_ext) {
+                        Machine m;
+                        m.teakra->Reset();
+                        {
+                            T::AHBMCallback cb;
+                            cb.read8 = [](u32 a) { return (u8)a; };
+                            cb.read16 = [](u32 a) { return (u16)a; };
+                            cb.read32 = [](u32 a) { return a; };
+                            cb.write8 = [](u32, u8) {};
+                            cb.write16 = [](u32, u16) {};
+                            cb.write32 = [](u32, u32) {};
+                            m.teakra->SetAHBMCallback(cb);
+                        }
+                        Checker ck(tab, res);
+                        Access ac{m, path, 5};
+                        const u16 ch = (u16)(2 + n), ub = unit == 2 ? 4 : unit == 1 ? 2 : 1;
+                        std::string rp = Fmt("c12 ahbmdma %d %u %u %u %d", path, n, burst, unit, src_ext);
+                        try {
+                            ac.Write((u16)(0xE2 + 6 * n), (u16)((burst << 1) | (unit << 4)));
+                            ac.Write((u16)(0xE4 + 6 * n), (u16)(src_ext ? 0 : 0x0100));
+                            ac.Write((u16)(0xE6 + 6 * n), (u16)(1u << ch));
+                            ac.Write(0x1BE, ch);
+                            ac.Write(0x1C0, (u16)(src_ext ? 0x0100 : 0x0200)), ac.Write(0x1C2, (u16)(src_ext ? 0x2000 : 0));
+                            ac.Write(0x1C4, (u16)(src_ext ? 0x0300 : 0x0100)), ac.Write(0x1C6, (u16)(src_ext ? 0 : 0x2000));
+                            ac.Write(0x1C8, 8), ac.Write(0x1CA, 1), ac.Write(0x1CC, 1);
+                            ac.Write(0x1CE, (u16)(src_ext ? ub : (unit == 2 ? 2 : 1))), ac.Write(0x1D0, (u16)(src_ext ? (unit == 2 ? 2 : 1) : ub));
+                            ac.Write(0x1DA, (u16)((src_ext ? 0x0007 : 0x0070) | (unit == 2 ? 0x0400 : 0)));
+                        } catch (const T::VerifAssertion&) {
+                            continue;
+                        }
+                        ck.Step(ac, 0x1DE, 0x40C0, Fmt("DMA channel %u through AHBM channel %u (burst code %u, unit code %u, %s external)", ch, n, burst, unit, src_ext ? "source" : "destination"), rp);
+                        dig.insert(ck.digests.begin(), ck.digests.end());
+                    }
+    }
     // (D) the host accessor reaches the same register at each of the 32 mirrors
     if (mine()) {
         Machine m;
